@@ -504,6 +504,9 @@ def attach_image_names(node, names: List[str]) -> None:
     walk(node)
 
 
+FILESINK = [False]     # set per step: write into real files (objects with a `mode`) instead of StringIO / BytesIO
+
+
 def impl_convert(pdf: bytes, la, otype: str, codec: Optional[str], strip: bool, images: bool = False,
                  nocache: bool = False):
     """Returns (output, tree rendered): str (text sink) when codec is None, else bytes (binary sink).
@@ -522,20 +525,42 @@ def impl_convert(pdf: bytes, la, otype: str, codec: Optional[str], strip: bool, 
 
 def _impl_convert(pdf: bytes, la, otype: str, codec: Optional[str], strip: bool, outdir: Optional[str],
                   nocache: bool = False):
+    import tempfile
     from pdfminer.high_level import extract_text_to_fp
+    path = None
+    if FILESINK[0]:
+        fd, path = tempfile.mkstemp(prefix="c11sink")
+        os.close(fd)
     if codec is None:
-        fp: Any = io.StringIO()
+        # text sink: StringIO, or a file opened in text mode (its `mode` has no "b")
+        fp: Any = open(path, "w", encoding="utf-8", errors="surrogatepass", newline="") if path else io.StringIO()
         kw = {"codec": None} if otype == "xml" else {}
     else:
-        fp = io.BytesIO()
+        fp = open(path, "wb") if path else io.BytesIO()
         kw = {"codec": codec}
     if outdir:
         kw["output_dir"] = outdir
     if nocache:
         kw["disable_caching"] = True
-    with _Capture() as cap:
-        extract_text_to_fp(io.BytesIO(pdf), fp, output_type=otype, laparams=mk_laparams(la), strip_control=strip, **kw)
-    return fp.getvalue(), cap.pages
+    try:
+        with _Capture() as cap:
+            extract_text_to_fp(io.BytesIO(pdf), fp, output_type=otype, laparams=mk_laparams(la), strip_control=strip,
+                               **kw)
+        if path is None:
+            return fp.getvalue(), cap.pages
+        fp.close()
+        if codec is None:
+            with open(path, "r", encoding="utf-8", errors="surrogatepass", newline="") as rf:
+                return rf.read(), cap.pages
+        with open(path, "rb") as rb:
+            return rb.read(), cap.pages
+    finally:
+        if path is not None:
+            try:
+                fp.close()
+            except Exception:  # noqa: BLE001
+                pass
+            os.unlink(path)
 
 
 def impl_extract_text(pdf: bytes, la):
@@ -822,7 +847,7 @@ def eval_case(spec, la, strip: bool, codecs: List[str], want_model: bool = True,
     output types, the text sink and the given binary codecs; collect model requests.
     `only` ("text" | "extract_text" | "xml") restricts the evaluation to one output path (used by the shrinker)."""
     res = CaseResult()
-    cfg = {"laparams": la, "strip_control": strip, "images": images, "nocache": nocache}
+    cfg = {"laparams": la, "strip_control": strip, "images": images, "nocache": nocache, "filesink": FILESINK[0]}
     pdf = build_pdf(spec)
 
     def no_src(node):
@@ -1119,10 +1144,12 @@ def step_of(inp: Dict[str, Any], codecs: Optional[List[str]] = None) -> Dict[str
     """One conversion round of a session: a document + one configuration (JSON-able)."""
     cs = codecs if codecs is not None else ([inp["codec"]] if inp.get("codec") else inp.get("codecs", []))
     return {"spec": inp["spec"], "laparams": inp.get("laparams"), "strip_control": bool(inp.get("strip_control")),
-            "images": bool(inp.get("images")), "nocache": bool(inp.get("nocache")), "codecs": list(cs)}
+            "images": bool(inp.get("images")), "nocache": bool(inp.get("nocache")),
+            "filesink": bool(inp.get("filesink")), "codecs": list(cs)}
 
 
 def eval_step(step: Dict[str, Any], want_model: bool = True, only: Optional[str] = None) -> CaseResult:
+    FILESINK[0] = bool(step.get("filesink"))
     return eval_case(step["spec"], step["laparams"], step["strip_control"], step["codecs"], want_model=want_model,
                      only=only, images=step["images"], nocache=step["nocache"])
 
@@ -1266,6 +1293,7 @@ def run_session(ctx: C.Ctx, steps: List[Dict[str, Any]], branch=None, collect=No
         ctx.branch("strip:" + str(strip))
         ctx.branch("imagewriter:" + str(images))
         ctx.branch("disable_caching:" + str(step["nocache"]))
+        ctx.branch("sink:" + ("file objects (text mode / binary mode)" if step.get("filesink") else "StringIO/BytesIO"))
         ctx.branch("session-step:%d" % k + (":" + step.get("kind", "") if k else ""))
         for c in codecs:
             ctx.branch("codec:" + c)
@@ -1447,7 +1475,7 @@ def run(ctx: C.Ctx) -> None:
         codecs = sorted(set(codecs))
         images = any(x["kind"] == "image" for x in spec["xobjs"]) and rng.random() < 0.5
         base = {"spec": spec, "laparams": la, "strip_control": strip, "images": images,
-                "nocache": rng.random() < 0.15, "codecs": codecs}
+                "nocache": rng.random() < 0.15, "filesink": rng.random() < 0.2, "codecs": codecs}
         steps = [base]
         if i % 2 == 1 or rng.random() < 0.2:
             steps.append(follow_up(rng, base))
